@@ -445,17 +445,19 @@ class Gen:
         c = self.rng.randrange(9)
         x = self.var(vs)
         if c == 0:
-            # (a non-evaluable atom written literally in a compiled expression is rejected at load time:
-            #  notes/findings-misc.md; build the expression at run time)
+            # a non-evaluable atom written literally in a compiled expression is rejected at load time, and
+            # `E = foo+1, X is E` in ONE clause body is no better (the compiler propagates the unification into the
+            # expression: wrong culprit `user/0`, or the error is lost inside \+; notes/findings-misc.md, C02/C03's
+            # business): the expression comes out of a fact
             e = self.fresh("U")
-            return S(",", S("=", e, S("+", A("foo"), I(1))), S("is", x, e))
+            return S(",", S("xe_%s" % self.cid, e), S("is", x, e))
         if c == 1:
             return S("is", self.fresh("N"), S("+", self.fresh("U"), I(1)))
         if c == 2:
             return S("is", x, S("//", I(1), I(0)))
         if c == 3:
             e = self.fresh("U")
-            return S(",", S("=", e, A("a")), S("<", I(1), e))
+            return S(",", S("xa_%s" % self.cid, e), S("<", I(1), e))
         if c == 4:
             return S("functor", self.fresh("U"), self.fresh("U"), self.fresh("U"))
         if c == 5:
@@ -626,11 +628,13 @@ class Gen:
 
     def build(self, depth):
         rng = self.rng
+        self.clauses.append((S("xe_%s" % self.cid, S("+", A("foo"), I(1))), TRUE))
+        self.clauses.append((S("xa_%s" % self.cid, A("a")), TRUE))
         # deep recursion helper
         if rng.random() < 0.5:
             self.deep = "d_%s" % self.cid
             leafs = [S("throw", S("deep", V("X"))), S("ev", S("bottom", V("X"))), S("=", V("X"), A("bottom")), FAIL,
-                     S(",", S("=", V("E"), S("+", A("foo"), I(1))), S("is", V("X"), V("E")))]
+                     S(",", S("xe_%s" % self.cid, V("E")), S("is", V("X"), V("E")))]
             leaf = rng.choice(leafs)
             n1 = S("is", V("N1"), S("-", V("N"), I(1)))
             reccall = S(self.deep, V("N1"), V("X"))
@@ -720,7 +724,7 @@ PROFILES = [{"catch": 1, "scc": 1}, {"catch": 2, "scc": 0.3}, {"catch": 0.5, "sc
 
 
 def gen_cases(rng, tier, seed):
-    n = 700 if tier == "quick" else 6000
+    n = 700 if tier == "quick" else 4500
     cases = []
     for k in range(n):
         cid = "c%d_%d" % (seed, k)
@@ -740,6 +744,18 @@ def strip(c):
             **({"query": c["query"]} if c.get("query") else {})}
 
 
+LIST_GOAL_MODEL = "'error'('existence_error'('procedure','/'('.',2)),*)"
+LIST_GOAL_IMPL = "'error'('type_error'('callable','.'("
+
+
+def same_ball(ib, mb):
+    """a list in a goal position: the reference (lists are ordinary './2' compounds) reports an unknown
+    procedure './2', scryer does not regard a list as callable. That is call/1's business (C07), not C12's."""
+    if ib == mb:
+        return True
+    return mb == LIST_GOAL_MODEL and ib is not None and ib.startswith(LIST_GOAL_IMPL)
+
+
 def compare(iv, mv):
     """-> list of differing parts"""
     d = []
@@ -749,9 +765,13 @@ def compare(iv, mv):
         d.append("events")
     if iv["answers"] != mv["answers"]:
         d.append("answers")
-    if iv["ball"] != mv["ball"]:
+    if not same_ball(iv["ball"], mv["ball"]):
         d.append("ball")
     return d
+
+
+def labels(evs):
+    return sorted(re.match(r"'?([A-Za-z0-9_]+)", e).group(1) if re.match(r"'?([A-Za-z0-9_]+)", e) else e for e in evs)
 
 
 EV_MISSING = "'existence_error'('procedure','/'('ev',1))"
@@ -840,10 +860,11 @@ def run(ctx):
             continue
         sig = {"cls": c["cls"], "part": "+".join(d)}
         if (iv.get("raw") is None and d == ["events"] and c["text"].count("setup_call_cleanup(") >= 2
-                and sorted(iv["events"]) == sorted(mv["events"]) and "c" in mv.get("marks", "")):
-            # finding C12-2: a cut inside the goal of an enclosing setup_call_cleanup/3 that prunes an inner,
-            # non-deterministically exited one also runs the enclosing (still running) goal's handler: same
-            # events, the enclosing handler's too early
+                and mv.get("marks", "").count("s") >= 2 and labels(iv["events"]) == labels(mv["events"])):
+            # finding C12-2: the clean-up loop started for an inner setup_call_cleanup/3 (pruned by a cut inside the
+            # enclosing goal, or failing) also takes the handler of the enclosing, still running goal: the same
+            # events happen, the enclosing handler's too early (other order, or it sees bindings that the
+            # reference has already undone)
             sig = {"cls": c["cls"], "defect": "enclosing-cleanup-runs-at-inner-cut"}
         if c["cls"].endswith("noncallable-literal") and iv.get("raw") is None and lost_cleanup(iv, mv):
             # finding C12-1: the body holding a non-callable literal is left unexpanded, the clean-up goal stays
